@@ -1,12 +1,12 @@
 (** Dispatcher of the executable model: one input line -> one observation
     line, for the generated tables and for the specified tables. *)
 From Coq Require Import String.
-From PSA Require Import Base Lines Lifecycle Regex Claims Obs CaseClaims RunC14 RunHist Tags Wire Codec RunCodec Evidence RunEv Cose RunCose Embedded RunEmb Registry RunReg Json JsonCodec RunJson.
+From PSA Require Import Base Lines Lifecycle Regex Claims Obs CaseClaims RunC14 RunHist Tags Wire Codec RunCodec Evidence RunEv Cose RunCose Embedded RunEmb Registry RunReg Json JsonCodec RunJson Purity Effects RunPur.
 From PSA.Spec Require Import SpecTables SpecTags.
-From PSA.Gen Require Import GenConsts GenTags.
+From PSA.Gen Require Import GenConsts GenTags GenEffects.
 Open Scope N_scope.
 
-Definition run_line (cfg : ccfg) (w : wcfg) (line : bytes) : bytes :=
+Definition run_line (fx : fxcfg) (cfg : ccfg) (w : wcfg) (line : bytes) : bytes :=
   match tokens line with
   | p :: args =>
       if bytes_eqb p (s2b "C14") then run_c14 cfg args
@@ -30,10 +30,7 @@ Definition run_line (cfg : ccfg) (w : wcfg) (line : bytes) : bytes :=
       else if bytes_eqb p (s2b "RTJ") then run_rtj cfg w args
       else if bytes_eqb p (s2b "REG") then run_reg cfg args
       else if bytes_eqb p (s2b "ALL") then s2b "*"      (* every entry point on arbitrary bytes: judged by the no-panic / allocation oracles *)
-      else if bytes_eqb p (s2b "SERJ") then run_serj args
-      else if bytes_eqb p (s2b "RTJ") then run_rtj cfg w args
-      else if bytes_eqb p (s2b "REG") then run_reg cfg args
-      else if bytes_eqb p (s2b "ALL") then s2b "*"      (* every entry point on arbitrary bytes: judged by the no-panic / allocation oracles *)
+      else if bytes_eqb p (s2b "PUR") then run_pur fx cfg w args
       else if bytes_eqb p (s2b "TAMP") then run_tamp cfg w args
       else if bytes_eqb p (s2b "DECV") then run_decv cfg w args
       else bad_input
@@ -43,5 +40,5 @@ Definition run_line (cfg : ccfg) (w : wcfg) (line : bytes) : bytes :=
 Definition gen_wcfg : wcfg := {| w_p1 := gen_p1_fields; w_p2 := gen_p2_fields; w_swc := gen_swc_fields |}.
 Definition spec_wcfg : wcfg := {| w_p1 := spec_p1_fields; w_p2 := spec_p2_fields; w_swc := spec_swc_fields |}.
 
-Definition run_gen (line : bytes) : bytes := run_line gen_ccfg gen_wcfg line.
-Definition run_spec (line : bytes) : bytes := run_line spec_ccfg spec_wcfg line.
+Definition run_gen (line : bytes) : bytes := run_line (fxcfg_of gen_effects) gen_ccfg gen_wcfg line.
+Definition run_spec (line : bytes) : bytes := run_line spec_fx spec_ccfg spec_wcfg line.
